@@ -200,7 +200,8 @@ PROPS = {
                                      "nontrivial": ["race-run"]}]),
     "C15": sync_prop(C15T, ["hook-customize", "related-selected"],
                      "non-trivial = the customize hook was called in the sync, or (event stream) the related object is selected by some parent's rules" + RULE_EVENTS,
-                     ["hook", "outcome", "events"], extra_streams=[events("composite", 600, 6000, ["related-selected", "related-add", "related-update", "related-delete"])]),
+                     ["hook", "outcome", "events"], extra_streams=[events("composite", 600, 6000, ["related-selected", "related-add", "related-update", "related-delete"]),
+                                                                   rounds("malformed", 800, 8000, ["hook-customize"])]),
     "C16": sync_prop(C16T, ["update-parent", "updateStatus-parent"],
                      "non-trivial = the decorated object was written (decorator traces); composite traces are not judged", ["parent", "status", "hook"]),
     "C12": sync_prop(C12T, ["failed-create", "failed-update", "failed-delete", "failed-updateStatus", "outcome-error"],
